@@ -1,2 +1,3 @@
 import Hive
 import Audit.C11
+import Audit.C20
